@@ -69,7 +69,34 @@ def _c20_sensor_leaf(key):
     return run
 
 
+def _c17_coerced(kind):
+    def run():
+        import magpylib as magpy
+        bad = None if kind == "None" else "2"
+        c = magpy.magnet.Cuboid(dimension=(1, bad, 3), polarization=(0, 0, 1))
+        return True, {"reproduce": f"magpylib.magnet.Cuboid(dimension=(1, {bad!r}, 3), polarization=(0,0,1)).dimension", "stored": np.asarray(c.dimension).tolist()}
+    return run
+
+
+def _c17_from_mesh_valueerror():
+    import magpylib as magpy
+    try:
+        magpy.magnet.TriangularMesh.from_mesh(mesh=[[[1, 2]] * 3] * 4, polarization=(0, 0, 1))
+    except Exception as e:  # noqa: BLE001
+        from magpylib._src.exceptions import MagpylibBadUserInput
+        return not isinstance(e, MagpylibBadUserInput), {"reproduce": "magpylib.magnet.TriangularMesh.from_mesh(mesh=[[[1,2]]*3]*4, polarization=(0,0,1))", "raised": type(e).__name__}
+    return True, {"raised": None}
+
+
+def _c20_trace_kwargs():
+    import magpylib as magpy
+    t = magpy.graphics.Trace3d(backend="matplotlib", constructor="plot", kwargs={"clip_on": False})
+    return t.kwargs != {"clip_on": False}, {"reproduce": "magpylib.graphics.Trace3d(backend='matplotlib', constructor='plot', kwargs={'clip_on': False}).kwargs", "got": repr(t.kwargs)}
+
+
 REPLAYS = {
+    "C17": {"coerced-entry:None": _c17_coerced("None"), "coerced-entry:numeric-string": _c17_coerced("numeric-string"),
+            "foreign-error:TriangularMesh.from_mesh:ValueError": _c17_from_mesh_valueerror},
     "C02": {"mu0-literal:BaseMagnet-setters": _c02_mu0_literal},
     "C15": {
         **{f"non-finite:Dipole:{variant}:{f}": _nonfinite(_dipole, [[5e-324, 0.0, 0.0], [1e-160, 1e-160, 1e-160]], f)
@@ -78,7 +105,8 @@ REPLAYS = {
     },
     "C16": {"status:prism:selfintersection-not-detected": _c16_interpenetrating("prism"),
             "status:hull:selfintersection-not-detected": _c16_interpenetrating("hull")},
-    "C20": {f"style:sensor:{k}:object-default-shadows-family": _c20_sensor_leaf(k) for k in ("pixel_size", "arrows_x_show", "arrows_y_show", "arrows_z_show")},
+    "C20": {**{f"style:sensor:{k}:object-default-shadows-family": _c20_sensor_leaf(k) for k in ("pixel_size", "arrows_x_show", "arrows_y_show", "arrows_z_show")},
+            "notation:dict-valued-property-rewritten": _c20_trace_kwargs},
 }
 
 
